@@ -47,6 +47,9 @@ checks = {
  "C06": dict(technique="runtime monitoring: exhaustive position x type x context table of minimal programs fed to the real Transpile for both targets, verdicts compared with a typing oracle",
    text="Exhaustive table monitor: ~230 typed positions x 8 offered types (28 spellings) x 5 contexts, each rendered as a program that is otherwise well typed, transpiled for Bash and Batch by the real library; accept/reject must equal the table's verdict and agree between targets; a crash instead of an error is a violation. Thorough adds 20 000 generated programs with one ill-typed position.",
    note="Trusted: the verdict table (Go typing rules + README signatures). Exclusions as stated by the property; nil offered where a slice is wanted is not asserted.", ref="§3 C06"),
+ "C05": dict(technique="runtime monitoring: emitted Batch scripts executed under an executable model of cmd.exe's documented rules (calibrated on the upstream-validated Windows suite), judged by the reference interpreter and the real Bash run",
+   text="Model-based runtime monitor: the Windows half of the repository's suite runs under the cmd model (155 tests, expectations validated upstream on real cmd.exe); the C01-C04 families at 32 bit, Batch-specific families (label allocation over all loop skeletons also inside functions, digit-width crossings 9->10 and 99->100, frames and panic placements, cmd-special print lines) and a random sweep are transpiled to Batch, executed under the model in both readings of the one uncertain rule, and compared with the reference interpreter and with the real Bash run of the same program. Unmodelled constructs make a case inconclusive.",
+   note="Trusted: the cmd model (rule cards in DESIGN.md Appendix A; real cmd.exe is not available in the sandbox), the reference interpreter at 32 bit.", ref="§3 C05"),
  "C04": dict(technique="runtime monitoring: trace-line sequence of effectful functions in executed scripts compared with the reference evaluation order",
    text="Trace monitoring: numbered effectful calls are placed at every operand position x statement kind x context; the emitted script's trace (order and multiplicity of the calls) must equal the reference interpreter's left-to-right, exactly-once, eager trace.",
    note="Trusted: RefLang interpreter's evaluation order, /bin/bash 5.2. Switch tags and range operands never effectful (excluded).", ref="§3 C04"),
